@@ -1,8 +1,8 @@
 PID = "C17"
 WORKER = "w_c17"
-HEADER = "From Coq Require Import List ZArith QArith Qcanon.\nFrom Dimod Require Import Base.Util Model.Poly Model.Comb Gen.Gen_Gates Gen.Gen_Combinations Gen.Gen_Graph Model.Gates Model.Knap Model.MultCircuit Model.Qap Model.Magic Model.Sat Model.ChkC17.\nImport ListNotations."
+HEADER = "From Coq Require Import List ZArith QArith Qcanon.\nFrom Dimod Require Import Base.Util Model.Poly Model.Comb Gen.Gen_Gates Gen.Gen_Combinations Gen.Gen_Graph Model.Gates Model.Knap Model.QKnap Gen.Gen_Knap Model.MultCircuit Model.Qap Model.Magic Model.Sat Gen.Gen_Sat Model.ChkC17.\nImport ListNotations."
 CHECK_FN = "check"
-N_QUICK = 1600
+N_QUICK = 1200
 N_THOROUGH = 30000
 SHARD = 100
 TIMEOUT = 2400
@@ -20,6 +20,8 @@ RULE = ("gates (and/or/xor/halfadder/fulladder) with random distinct labels (int
         "non-trivial per kind as set by the worker; distinct by canonical JSON of the case")
 TRUSTED = ["translators/gates_tables.py (fail-closed ast translator: gates.py -> Gen/Gen_Gates.v, re-run before every build)",
            "translators/graph_constants.py (fail-closed ast translator: shapes, literals and keyword defaults of the independent-set generators -> Gen/Gen_Graph.v)",
+           "translators/knap_constructions.py (fail-closed ast translator of the CQM construction loops of knapsack, quadratic_knapsack, multi_knapsack, quadratic_multi_knapsack, bin_packing -> Gen/Gen_Knap.v)",
+           "translators/sat_clause_terms.py (fail-closed shape lock of _kmcsat_interactions / random_kmcsat and its wrappers -> Gen/Gen_Sat.v)",
            "translators/combinations_rule.py (fail-closed ast translator: the coefficient rule of combinations -> Gen/Gen_Combinations.v)",
            "model: coq/theories/Model/Gates.v, Comb.v (combinations_energy), Knap.v (knapsack / multi-knapsack / bin packing), "
            "MultCircuit.v (wiring of multiplication_circuit), ChkC17.v (hand written, tied by this correspondence)",
@@ -38,5 +40,5 @@ PARTIAL = ["quadratic_assignment: C17_qap_cost_symmetric needs a symmetric dista
            "not the documented cost (C17_qap_asymmetric_refuted, corpus/C17/qap_asymmetric.json); asymmetric matrices are kept out of the random stream (QAP_ASYMMETRIC in w_c17.py)",
            "magic_square: constraints tied coefficient-wise and on integer assignments; only necessity of the uniqueness constraint is a "
            "theorem (C17_magic_uniqueness_necessary); it is not sufficient (C17_magic_uniqueness_not_sufficient_refuted: a Latin square is feasible)",
-           "satisfiability generators: the clause draws are replayed from the seed in the worker (numpy is an oracle); theorems cover the assembly and the clause energies only",
+           "satisfiability generators: only the draws of numpy's Generator (which k variables, which sign bits) are an oracle, replayed from the seed in the worker; how a draw becomes terms is translated from the source and proved",
            "random generators: monitored only"]
